@@ -1122,7 +1122,7 @@ int main(int argc, char **argv)
         runConfig({ "all#" + std::to_string(i), order }, cat, true, thorough, rng, thorough ? 1 : 50);
     }
     // random small sets in random order
-    int nrand = thorough ? 60 : 8;
+    int nrand = thorough ? 24 : 8;
     for (int i = 0; i < nrand; i++) {
         vector<string> pool = allKeys, order;
         int k = 2 + rng.below(5);
